@@ -23,6 +23,7 @@ package parse
 
 import (
 	"fmt"
+	"strings"
 	"time"
 )
 
@@ -36,6 +37,12 @@ func checkModule(n Node) error {
 	)
 	prev := HDR
 	for _, c := range n.Children() {
+		if strings.Contains(c.Type().String(), ":") {
+			// A statement with a prefixed keyword is an extension statement,
+			// also when this package knows it by name (configd:help,
+			// opd:command): it belongs to no section and may stand anywhere
+			continue
+		}
 		switch c.Type() {
 		case NodeUnknown:
 		case NodeYangVersion, NodeNamespace, NodePrefix, NodeBelongsTo:
